@@ -363,6 +363,15 @@ pub fn run_light(ctx: &mut Ctx, setup: &mut Setup, fp: &FamParams, extra_k: u32,
         Some(k) => k,
         None => {
             let e = mock(17, &circuit, pi.clone()).err();
+            // Known limitation of the light back-end (findings/C20.json): a commitment that is read from the
+            // proof but never opened (an advice column without any query) never enters the accumulator, so
+            // `FakeCurveChip::finalize` panics. Keyed by the condition, not by the family member.
+            let cs = inner.vk().cs();
+            let unqueried = (0..cs.num_advice_columns()).any(|i| !cs.advice_queries().iter().any(|(c, _)| c.index() == i));
+            if unqueried && e.as_deref().unwrap_or("").contains("FakePoint") {
+                ctx.oracle_fail("gadget-fails:light:unqueried-advice-column", "light back-end: the verifier circuit panics (FakeCurveChip::finalize) for an inner circuit with an advice column that is never queried", json!({"case": desc, "error": e, "shape": inner.shape}));
+                return;
+            }
             ctx.oracle_fail(&format!("gadget-fails:{key}"), "the verifier circuit cannot be synthesised on an honest inner proof", json!({"case": desc, "error": e, "shape": inner.shape}));
             return;
         }
